@@ -85,11 +85,13 @@ def to_json(o):
     if isinstance(o, bytes):
         return {"t": "bytes", **ref_of(type(o)), "repr": repr(o)}
     if isinstance(o, QName):
-        return {"t": "qname", "text": o.text, "repr": repr(o.text)}
+        return {"t": "qname", "text": o.text}
     if type(o) is list:
         return {"t": "list", "items": [to_json(x) for x in o]}
     if type(o) is tuple:
         return {"t": "tuple", "items": [to_json(x) for x in o]}
+    if type(o) in (set, frozenset):
+        return {"t": "set", "frozen": type(o) is frozenset, "items": [to_json(x) for x in o]}  # iteration order
     if type(o) is dict:
         return {"t": "dict", "items": [[to_json(k), to_json(v)] for k, v in o.items()]}
     if is_dataclass(o) and not isinstance(o, type):
@@ -162,7 +164,7 @@ def world_of(obj):
     def visit(o):
         if isinstance(o, Enum):
             add_class(type(o))
-        elif isinstance(o, (list, tuple)):
+        elif isinstance(o, (list, tuple, set, frozenset)):
             for x in o:
                 visit(x)
         elif isinstance(o, dict):
@@ -269,6 +271,9 @@ def build_val(j, b: Built):
         return [build_val(x, b) for x in j["items"]]
     if t == "tuple":
         return tuple(build_val(x, b) for x in j["items"])
+    if t == "set":
+        items = [build_val(x, b) for x in j["items"]]
+        return frozenset(items) if j["frozen"] else set(items)
     if t == "dict":
         return {build_val(k, b): build_val(v, b) for k, v in j["items"]}
     if t == "model":
@@ -359,7 +364,7 @@ def compare_code(mo, io, a):
     STATS["declined"] += mo["ok"]["outcome"] == "unmodelled"
     if not h.get("wf"):
         return False
-    if all(h.get(k) for k in ("wf", "dom", "clean", "imports")):
+    if all(h.get(k) for k in ("wf", "dom", "setfree", "imports")):
         STATS["claimed"] += 1
         STATS["claimed_equal"] += io["ok"]["outcome"] == "equal"
         if io["ok"]["outcome"] != "equal" or mo["ok"]["outcome"] != "equal":
@@ -452,6 +457,7 @@ QNAME_TEXTS = [
     "a", "{urn:x}a", "{http://www.w3.org/2001/XMLSchema}string", "",
     "{a\\b}x", "{a\\qb}x", "{a\\\\b}x", "{a\\tb}x", "{a\\'b}x", "a\\nb", "{c:\\dir}n", "{a\\.b}x", "{a\\€b}x",
     '{a"b}x', "a\nb", "x\\", "{a\\x41}c", "{a\\101}c", "{a\\N{DASH}}c", "{a\\u0041}c", "a\\\nb", "a\rb", "a\\\"b",
+    "a\x08b", "a\x0cb", "a\x1fb", "a\x00b", "a\x7fb", "a\u2028b", "a\x85b", "\U0001F600", "a\tb", "\\u0041", '"', "\\",
 ]
 STRS = ["", "a", "en", "a'b", 'a"b', "a'b\"c", "a\nb", "€", "\\", "a\\b", "\x7f", "日本", "\t", "{urn:x}a",
         "1", "0", "None", "True", "1.5", "()", "[]", "b'ab'"]  # the last row: str() look-alikes of other defaults
@@ -515,6 +521,29 @@ def hash_key(j):
     return json.dumps(j, sort_keys=True)
 
 
+SET_ELEMS = [0, 1, 2, 3, 5, -1, None, 1.5, (), (1, 2), (3,)]  # hashes that do not depend on PYTHONHASHSEED
+
+
+def stable_set(items, frozen):
+    """JSON of a set whose description is a fixpoint: rebuilding the set from
+    the listed order iterates in the listed order again (the real object is
+    built from the JSON)"""
+    mk = frozenset if frozen else set
+    items = list(items)
+    for _ in range(8):
+        again = list(mk(items))
+        if again == items:
+            return J(mk(items))
+        items = again
+    return J(mk(items[:1]))
+
+
+def rand_set(rng):
+    """a set / frozenset of elements whose hash does not depend on the process"""
+    n = rng.choice([0, 0, 1, 2, 3])
+    return stable_set(rng.sample(SET_ELEMS, n), rng.random() < 0.4)
+
+
 def rand_value(rng, world, depth, no_models=False):
     enums = [e for e in world if e["kind"] == "enum"]
     models = [] if no_models else [e for e in world if e["kind"] == "model"]
@@ -525,7 +554,9 @@ def rand_value(rng, world, depth, no_models=False):
         return {"t": "list", "items": [rand_value(rng, world, depth - 1, no_models) for _ in range(rng.choice([0, 1, 1, 2, 3]))]}
     if r < 0.70:
         return {"t": "tuple", "items": [rand_value(rng, world, depth - 1, no_models) for _ in range(rng.choice([0, 0, 1, 2]))]}
-    if r < 0.80:
+    if r < 0.74:
+        return rand_set(rng)
+    if r < 0.82:
         items, seen = [], set()
         for _ in range(rng.choice([0, 1, 2, 3])):
             k = rand_key(rng, enums)
@@ -696,6 +727,7 @@ def hand_cases():
         J({(): 1}), J({(1, 2): 3}), J({QName("a"): 1, 1: QName("{a\\b}c")}), J([float("nan")]), J((float("inf"),)),
         {"t": "dict", "items": [[member(E_top), member(E_in)]]}, {"t": "list", "items": [member(E_in), member(E_top)]},
     ]
+    conts += [J(set()), J(frozenset()), J({1, 2}), J(frozenset({1})), J([set(), {3}]), J({(): frozenset()}), J((frozenset({(1, 2)}),))]
     for c in conts:
         case(W, inst(Outer, x=c))
         case(W, inst(Outer, t=c))
@@ -831,7 +863,7 @@ def gen_code(rng, tier):
 def walk_vals(j):
     yield j
     t = j["t"]
-    if t in ("list", "tuple"):
+    if t in ("list", "tuple", "set"):
         for x in j["items"]:
             yield from walk_vals(x)
     elif t == "dict":
@@ -851,8 +883,10 @@ def features(a):
             fs.add("nested-enum" if len(j["path"]) > 1 else "enum")
         elif t == "tuple":
             fs.add("tuple+" if j["items"] else "tuple0")
+        elif t == "set":
+            fs.add("set+" if j["items"] else "set0")
         elif t == "qname":
-            fs.add("qname-esc" if any(c in j["text"] for c in BAD_QNAME_CHARS) else "qname")
+            fs.add("qname-esc" if any(c in ESCAPED_QNAME_CHARS or ord(c) < 32 for c in j["text"]) else "qname")
         elif t == "model":
             fs.add("nested-model" if len(j["path"]) > 1 else "model")
         elif t == "float":
@@ -867,28 +901,61 @@ def features(a):
 
 
 def classify_code(a, o):
-    """bucket = outcome of exec'ing the real output | defect regions the value
-    touches | kinds of value it contains"""
+    """bucket = outcome of exec'ing the real output | which of the delicate kinds
+    the value contains (set+ is the still-defective region; nested-enum, tuple+,
+    qname-esc are the repaired ones)"""
     if "ok" not in o:
         return "err:" + str(o.get("err"))
     fs = features(a)
-    region = "+".join(sorted(fs & {"nested-enum", "tuple+", "qname-esc"})) or "clean"
+    region = "+".join(sorted(fs & {"nested-enum", "tuple+", "qname-esc", "set+"})) or "plain"
     return o["ok"]["outcome"] + " | " + region
 
 
 def gen_dq(rng, tier):
     for t in QNAME_TEXTS + STRS:
         yield {"s": t}
-    alpha = 'ab\\\\\\"\'ntx0N{}\n\r €'
+    for t in ["\\u0041", "\\u00e9", "\\ud800", "\\udfff", "\\u12", "\\u", "\\u004g", "\\uD7FF\\uE000", "\\u0000", "a\\u000Ab", "\\U00000041"]:
+        yield {"s": t}
+    alpha = 'ab\\\\\\"\'ntxu0014dDfF8N{}\n\r €'
     for _ in range(1500 if tier == "quick" else 20000):
         yield {"s": "".join(rng.choice(alpha) for _ in range(rng.randint(0, 6)))}
+
+
+def gen_json(rng, tier):
+    for i in range(0x250):
+        yield {"s": chr(i)}
+        yield {"s": "a" + chr(i) + "\\"}
+    for t in QNAME_TEXTS + STRS + ["\u2028\u2029", "\ufeff", "\U0010FFFF", "\ud7ff\ue000"]:
+        yield {"s": t}
+    alpha = 'ab\\"\'/\n\r\t\x00\x01\x08\x0b\x0c\x1f\x7f\x80 €\u2028😀'
+    for _ in range(1500 if tier == "quick" else 20000):
+        yield {"s": "".join(rng.choice(alpha) for _ in range(rng.randint(0, 8)))}
+
+
+def impl_json(a):
+    import json as _json
+
+    return ok(_json.dumps(a["s"], ensure_ascii=False))
+
+
+def impl_qname_literal(a):
+    """the real literal_value on a QName with this text, and what CPython makes of it"""
+    from xsdata.utils.objects import literal_value
+
+    text = literal_value(QName(a["s"]))
+    try:
+        back = eval(compile(text, "<c18lit>", "eval"), {"QName": QName}).text  # noqa: S307
+    except Exception as e:  # noqa: BLE001
+        back = "EXC:" + type(e).__name__
+    return ok({"text": text, "back": back})
 
 
 def gen_pyeq(rng, tier):
     w = []
     vals = [x for grp in EQ_VARIANTS for x in grp] + [J(None), J(float("nan")), J(Decimal("NaN")), J(float("inf")), J(Decimal("Infinity")),
                                                     J(()), J([]), J({}), J([1]), J((1,)), J([True]), J({"a": 1}), J({"a": 1.0}), J("b"), J(b"a"), J(0.1), J(Decimal("0.1")),
-                                                    J(XmlDate(2000, 1, 2)), J(XmlDate(1999, 12, 31)), J(XmlDuration("P1D")), J([[0]]), J([(False,)]), J(((),))]
+                                                    J(XmlDate(2000, 1, 2)), J(XmlDate(1999, 12, 31)), J(XmlDuration("P1D")), J([[0]]), J([(False,)]), J(((),)),
+                                                    J(set()), J(frozenset()), J({1}), J(frozenset({1})), J({1, 2}), J(frozenset({1, 2})), J({1.0}), J([{1}])]
     for x in vals:
         for y in vals:
             yield {"world": w, "a": x, "b": y}
@@ -896,17 +963,21 @@ def gen_pyeq(rng, tier):
 
 CORRS = [
     Corr("c18.code", gen_code, impl_code, canon=canon_code, compare=compare_code, classify=classify_code,
-         nontrivial=lambda a, o: a["val"]["t"] in ("model", "list", "tuple", "dict"),
+         nontrivial=lambda a, o: a["val"]["t"] in ("model", "list", "tuple", "dict", "set"),
          describe="PycodeSerializer.render text + outcome of exec'ing it vs model (text exact; outcome unless the model declines)"),
     Corr("c18.dq", gen_dq, impl_dq, compare=compare_dq, nontrivial=lambda a, o: "\\" in a["s"],
          describe='CPython decoding of the body of a "…" literal vs decodeDq (model may decline)'),
     Corr("c18.pyeq", gen_pyeq, impl_pyeq, describe="Python == on scalar/collection values vs pyEq"),
+    Corr("c18.json", gen_json, impl_json, nontrivial=lambda a, o: len(a["s"]) > 0,
+         describe="json.dumps(s, ensure_ascii=False) vs jsonDumps (every code point below U+0250, then random)"),
+    Corr("c18.qnamelit", gen_json, impl_qname_literal, nontrivial=lambda a, o: len(a["s"]) > 0,
+         describe="literal_value(QName(s)) text and its evaluation by CPython vs the model's text and decodeDq"),
 ]
 
 # ---------------------------------------------------------------------------
 # oracle: the property on the implementation alone
 # ---------------------------------------------------------------------------
-BAD_QNAME_CHARS = '\\"\n\r\x00'
+ESCAPED_QNAME_CHARS = '\\"'
 
 
 def same_value(a, b):
@@ -975,13 +1046,15 @@ def has_import_clash(a):
             seen.setdefault(parts[3], set()).add(parts[1])
     if "float" in seen and 'float("' in body:
         return True
+    if ("set" in seen and "set()" in body) or ("frozenset" in seen and "frozenset()" in body):
+        return True
     return any(len(v) > 1 for v in seen.values())
 
 
 def rename_clashes(a):
     """give every module-level class name that is used by two modules (or is
     `float`) a unique name, consistently in the world and in the values"""
-    taken = {"float", "QName", "Decimal"} | {type(o).__name__ for o in OPAQUES + BYTES}
+    taken = {"float", "QName", "Decimal", "set", "frozenset"} | {type(o).__name__ for o in OPAQUES + BYTES}
     ren = {}
     for e in a["world"]:
         key = (e["module"], e["path"][0])
@@ -1012,31 +1085,31 @@ def rename_clashes(a):
     return walk(a)
 
 
+def _has_surrogate(s):
+    return any(0xD800 <= ord(c) <= 0xDFFF for c in s)
+
+
 def repair_value(a):
     """(ids of the value-level findings whose region the input lies in,
-    the input with exactly those triggers removed)"""
+    the input with exactly those triggers removed): a non-empty set becomes a
+    list, a lone surrogate in a QName text becomes `_`"""
     ids = []
     fresh = [0]
 
     def triggers(j):
         return any(
-            (x["t"] == "enum" and len(x["path"]) > 1) or (x["t"] == "tuple" and x["items"])
-            or (x["t"] == "qname" and any(c in x["text"] for c in BAD_QNAME_CHARS))
-            for x in walk_vals(j)
+            (x["t"] == "set" and x["items"]) or (x["t"] == "qname" and _has_surrogate(x["text"])) for x in walk_vals(j)
         )
 
     def fix(j):
         t = j["t"]
-        if t == "enum" and len(j["path"]) > 1:
-            ids.append("C18-nested-enum")
-            return {"t": "none"}
-        if t == "qname" and any(c in j["text"] for c in BAD_QNAME_CHARS):
-            ids.append("C18-qname-unescaped")
-            return J(QName("".join("_" if c in BAD_QNAME_CHARS else c for c in j["text"])))
-        if t == "tuple" and j["items"]:
-            ids.append("C18-tuple-as-list")
+        if t == "qname" and _has_surrogate(j["text"]):
+            ids.append("C18-qname-lone-surrogate")
+            return J(QName("".join("_" if 0xD800 <= ord(c) <= 0xDFFF else c for c in j["text"])))
+        if t == "set" and j["items"]:
+            ids.append("C18-set-as-list")
             return {"t": "list", "items": [fix(x) for x in j["items"]]}
-        if t in ("list", "tuple"):
+        if t in ("list", "tuple", "set"):
             return {**j, "items": [fix(x) for x in j["items"]]}
         if t == "dict":
             items = []
@@ -1075,6 +1148,10 @@ def covered(a, msg):
 
 
 def gen_oracle(rng, tier):
+    # lone surrogates cannot travel to the Lean driver, so they are exercised here only
+    C = model(MOD_A, ["C"], [fld("q", dv(None))])
+    for t in ("a\ud800b", "\udfff", "{urn:\udc00}x"):
+        yield {"world": [C], "val": inst(C, q={"t": "qname", "text": t}), "var": "obj"}
     yield from gen_code(rng, "quick")
 
 
@@ -1118,23 +1195,18 @@ def _replay(obj):
     return text, outcome, detail
 
 
-def finding_nested_enum():
+def finding_set():
     m = _scratch("c18find_a", "y")
-    text, outcome, detail = _replay(m.Outer(x=m.Outer.Inner.A))
-    return outcome == "exc:NameError" and "x=Inner.A" in text, f"{outcome} {detail}"
+    text, outcome, detail = _replay(m.Outer(x={1, 2}))
+    text2, outcome2, _ = _replay(m.Outer(x=frozenset({1})))
+    return outcome == "unequal" and "x=[" in text and outcome2 == "unequal", f"{outcome}/{outcome2} {detail}"
 
 
-def finding_tuple():
+def finding_surrogate():
     m = _scratch("c18find_a", "y")
-    text, outcome, detail = _replay(m.Outer(t=(1, 2)))
-    return outcome == "unequal" and "t=[" in text, f"{outcome} {detail}"
-
-
-def finding_qname():
-    m = _scratch("c18find_a", "y")
-    text, outcome, detail = _replay(m.Outer(x=QName("{a\\b}x")))
-    text2, outcome2, _ = _replay(m.Outer(x=QName('{a"b}x')))
-    return outcome == "unequal" and outcome2 == "exc:SyntaxError", f"{outcome}/{outcome2}"
+    text, outcome, detail = _replay(m.Outer(x=QName("a\ud800b")))
+    text2, outcome2, _ = _replay(m.Outer(x="a\ud800b"))  # a plain str with the same content is fine
+    return outcome == "exc:SyntaxError" and "UnicodeEncodeError" in detail and outcome2 == "equal", f"{outcome} {detail}"
 
 
 def finding_clash():
@@ -1145,14 +1217,13 @@ def finding_clash():
 
 
 FINDINGS = {
-    "C18-nested-enum": finding_nested_enum,
-    "C18-tuple-as-list": finding_tuple,
-    "C18-qname-unescaped": finding_qname,
+    "C18-set-as-list": finding_set,
+    "C18-qname-lone-surrogate": finding_surrogate,
     "C18-import-name-clash": finding_clash,
 }
 
 _RULE = (
-    "hand-picked cases (every repr_object/literal_value/build_imports branch, each defect, cross-type default elision), "
+    "hand-picked cases (every repr_object/literal_value/build_imports branch, each remaining and each repaired defect, cross-type default elision), "
     "real fixture objects (books, generics), bounded-exhaustive default x value table and container shapes, then seeded random "
     "worlds (nested classes/enums, two modules, frozen) x random instances; distinct = distinct canonical (op,args); "
     "non-trivial = the value is a model instance or a collection"
@@ -1171,29 +1242,31 @@ def __getattr__(name):
     raise AttributeError(name)
 
 LEVEL_TEXT = (
-    "Lean theorems for all worlds and all values at AST level: the expression the serializer emits, evaluated in the namespace "
-    "its own import lines create, yields a value Python-equal to the original (code_rt_partial), and every name it uses is bound "
-    "to the class it means (imports_sufficient_partial), outside four explicitly excluded regions each of which is a proved "
-    "counterexample (nested enum, non-empty tuple, unescaped QName text, same class name from two modules); with the three proposed "
-    "one-line repairs the value-level exclusions disappear (code_rt_patched). The model is tied to /repo by comparing the exact "
-    "emitted text and the exec outcome on generated dataclasses and values, and the theorem's claim is re-checked on the real code "
-    "wherever its hypotheses hold."
+    "Lean theorems for all worlds and all values at AST level, about the code as it is after the three fix commits: the "
+    "expression the serializer emits, evaluated in the namespace its own import lines create, yields a value Python-equal to the "
+    "original (code_rt_partial), every name it uses is bound to the class it means (imports_sufficient_partial), and the literal "
+    "json.dumps writes for a QName text is read back by the parser as that text for every string of Unicode scalar values "
+    "(qname_text_roundtrips). Two regions remain excluded, each a proved counterexample and a replayed finding: a non-empty "
+    "set/frozenset (rendered as a list) and one class name imported from two modules. The model is tied to /repo by comparing the "
+    "exact emitted text and the exec outcome on generated dataclasses and values, json.dumps and the QName literal on every code "
+    "point below U+0250 plus random strings, and the theorem's claim is re-checked on the real code wherever its hypotheses hold."
 )
 LEVEL_NOTE = (
-    "Trusted: Lean kernel; CPython's parsing of the emitted text into the modelled AST and the repr/eval round trip of str, bytes, "
-    "finite floats, Decimal and xsdata date/time values (their repr is an input); Fraction() as the numeric value used for ==; "
-    "the sampling correspondence check. Sets, IntEnum/StrEnum, NaN-valued defaults, signalling NaN, dict permutations, dataclass "
-    "instances as dict keys and classes defined inside functions are not modelled."
+    "Trusted: Lean kernel; CPython's parsing of the emitted text into the modelled AST (string-literal decoding of the QName "
+    "argument is modelled and compared) and the repr/eval round trip of str, bytes, finite floats, Decimal and xsdata date/time "
+    "values (their repr is an input); Fraction() as the numeric value used for ==; the sampling correspondence check. Lone "
+    "surrogates (not representable in the model's strings; known finding), IntEnum/StrEnum, NaN-valued defaults, signalling NaN, "
+    "dict/set permutations, dataclass instances as dict keys, generators and classes defined inside functions are not modelled."
 )
 TRUSTED = [
     "CPython parses the emitted text into the PyExpr AST the model evaluates (the text itself is compared character by character with the real output)",
     "repr()/literal round trip of str, bytes, finite float, Decimal and XmlDate/XmlTime/XmlDateTime/XmlDuration/XmlPeriod is taken from the interpreter (repr strings are inputs of the model)",
     "numeric == between bool/int/float/Decimal is exact comparison of fractions.Fraction values supplied by the harness",
-    "format pieces (indent, float(\"…\"), QName(\"…\"), import line, str(Enum member)) and dir(builtins) are regenerated by probing the live functions",
+    "format pieces (indent, float(\"…\"), QName(\"…\") and its escapes for all ASCII characters, import line, enum member, bracket layout of every array kind) and dir(builtins) are regenerated by probing the live functions and tied to the model by the theorems literal_formats, layout_probes, qname_escapes_ascii",
 ]
 ASSUMPTIONS = [
     "attributes of init=False fields hold the class default (a constructor call cannot set them); instances violating this are outside the property's domain",
     "'equal' is Python ==; for the failing-input search NaN is additionally taken equal to NaN position-wise",
     "classes are importable by module and qualified name (module-level or nested in classes, not in functions)",
-    "field defaults contain no NaN; enums are plain Enum; values contain no sets, no signalling NaN",
+    "field defaults contain no NaN; enums are plain Enum; strings consist of Unicode scalar values; no signalling NaN",
 ]
